@@ -43,6 +43,8 @@ def s_case(draw, tier):
             if sspec["nu"] == 0.0:
                 sspec["nu"] = 1.0
         mf["stationary"] = stationary
+    # type of the value the user's field equation returns (all are accepted by MeanFieldSystem)
+    mf["eom"]["ret"] = draw(st.sampled_from(["complex", "complex", "numpy-scalar", "array-0d", "array-1"]))
     dmax = max(s["d"] for s in mf["systems"])
     p = draw(tempogen.params_spec(dmax, tier, n_min=2, n_max=6, eps=[1e-7, 1e-8, 1e-9]))
     baths = [draw(tempogen.bath_spec(s["d"], rotated=False, custom_weight=0.0,
@@ -65,7 +67,7 @@ def run_case(case):
     t_end = tempogen.end_time(p, t0)
     td = mfgen.eom_time_dependent(mf)
     out.nontrivial = td or t0 != 0 or bool(mf.get("stationary"))
-    out.label("stationary-field=" + str(mf.get("stationary")))
+    out.label("stationary-field=" + str(mf.get("stationary")), "eom-returns=" + mf["eom"].get("ret", "complex"))
     out.label("eom-time-dependent" if td else "eom-autonomous", "t0!=0" if t0 != 0 else "t0=0",
               f"systems={len(rhos)}", "linear-only" if mf["eom"]["linear_only"] else "general-eom",
               "field-independent-H" if all(s["g"] == 0 for s in mf["systems"]) else "field-dependent-H",
